@@ -635,4 +635,18 @@ example : ∃ am, IsArgminAbs am ∧ (0 : Int) ≤ 2 ∧ (2 : Int) < 5 ∧ ((1 :
   obtain ⟨am, h⟩ := isArgminAbs_exists
   exact ⟨am, h, by decide, by decide, by norm_num⟩
 
+/-! ## polar resampling: which array axis is rho -/
+
+/-- the polar array of `uniform_cart_to_polar` has phi along one axis and rho along the other (as laid out by its
+`meshgrid`), rho has `len(x)` and phi `len(y)` samples; every azimuthal statistic of `Slices` (`azavg`, `azmedian`,
+`azmin`, `azmax`, `azpv`, `azvar`, `azstd`) reduces over the phi axis, so its result pairs with the rho coordinates; and
+`estimate_size` searches (argmax, length, reversal) along the rho axis -/
+theorem polar_axes_consistent (m n : Int) :
+    polarRhoAxis ≠ polarPhiAxis ∧ (polarRhoAxis = 0 ∨ polarRhoAxis = 1) ∧ (polarPhiAxis = 0 ∨ polarPhiAxis = 1) ∧
+    polarRhoLen m n = n ∧ polarPhiLen m n = m ∧
+    azReduceAxes = List.replicate 7 polarPhiAxis ∧ estSizeAxes = List.replicate 3 polarRhoAxis ∧
+    polarRhoAxis = Model.C04.polarRhoAxis ∧ polarPhiAxis = Model.C04.polarPhiAxis := by
+  refine ⟨by decide, by decide, by decide, ?_, ?_, by decide, by decide, by decide, by decide⟩ <;>
+    (try simp only [polarRhoLen, polarPhiLen, Model.C04.polarRhoLen, Model.C04.polarPhiLen]) <;> omega
+
 end C04
